@@ -6,6 +6,7 @@ import random
 from fractions import Fraction
 
 from ..core import frac
+from .. import c03_outlier as _outl
 
 LEVEL = "proof"
 RULE = ("bin tables of 1..6 chromosomes (incl. X/Y) x 1..400 bins, optional centromere-sized gap (also at the two extreme "
@@ -30,13 +31,17 @@ RULE = ("bin tables of 1..6 chromosomes (incl. X/Y) x 1..400 bins, optional cent
         "(op transfer: bin table with / without weight column x with / without depth column, one chromosome or several, "
         "segments = runs of bins of which a third span zero-weight bins only and a fifth are left out, segment table with 6 / 8 / "
         "permuted columns, no segments -> the make_null_segment tuple, no bins -> segments unchanged), each real row judged by "
-        "the Lean row oracle transferSpec and compared with the model transferFields. non-trivial = a bin was filtered out or a chromosome "
+        "the Lean row oracle transferSpec and compared with the model transferFields. Outlier filter on its own (op outlier): "
+        "drop_outliers(table, width {50,20,10}, factor {10,5,3,2.5,1,0.5}) on 1..4 chromosomes of width-1 / width / width+1 / "
+        "width+2 / longer bins (noise, flat, all-zero, stepped log2; planted outliers on either side), trend and rolling "
+        "quantile taken from the real savgol / rolling_quantile, the mask compared with the Lean model dropMask AND with the "
+        "rule generated from the source text (knife-edge elements excepted). non-trivial = a bin was filtered out or a chromosome "
         "was split into arms or more than one segment was reported; distinct by hash")
 EXHAUSTIVE = {"quick": False, "thorough": False}
 ASSUMPTIONS = ["input bins sorted, non-overlapping, positive length (a .cnr table)",
                "`variants`, when given, do not make the BAF re-segmentation split a segment (a split segment counts SNVs, "
                "not bins, in `probes` and breaks between SNVs, not between bins: outside the statement)",
-               "the outlier mask of the rolling-quantile filter is taken from the real smoothing code (parameter of the model)",
+               "the smoothed trend (savgol) and the rolling quantile of the residuals are parameters of the outlier model (real smoothing code); in the op segment the whole outlier mask is taken from the real filter",
                "the partition chosen by haar / HMM is read off the real output (cumulative probes): the segmenters are black boxes"]
 TRUSTED_EXTRA = ["pomegranate HMM, haar numerics, savgol smoothing (black boxes: only the partition they return is used)",
                  "cnvlib.parallel process pool ordering (pool.map)"]
@@ -188,6 +193,11 @@ def gen_cases(rng, tier):
         cases.append(_dead_case(frng, ("none", "haar", "hmm", "hmm-tumor", "hmm-germline")[k % 3 if k < 9 else k % 5], k // 3))
     for k in range(max(24, n // 4)):
         cases.append(_transfer_case(frng, k))
+    # round 5: the outlier filter on its own (op outlier, harness/c03_outlier.py; a separate stream again)
+    orng = random.Random()
+    orng.setstate(frng.getstate())
+    for k in range(max(30, n // 4)):
+        cases.append(_outl.gen_case(orng, k))
     return cases
 
 
@@ -625,6 +635,8 @@ def _tf_judge(case, impl, resp):
 
 
 def run_impl(case):
+    if case["op"] == "outlier":
+        return _outl.run_impl(case)
     if case["op"] == "transfer":
         return _tf_run(case)
     from cnvlib import segmentation
@@ -696,6 +708,8 @@ def _runs(segs, units_bins, keeps):
 
 
 def to_line(case, impl):
+    if case["op"] == "outlier":
+        return _outl.to_line(case, impl)
     if case["op"] == "transfer":
         return _tf_line(case, impl)
     i = case["in"]
@@ -724,6 +738,8 @@ def _close(a, b):
 
 
 def judge(case, impl, resp):
+    if case["op"] == "outlier":
+        return _outl.judge(case, impl, resp)
     if case["op"] == "transfer":
         return _tf_judge(case, impl, resp)
     if isinstance(impl, dict) and "__error__" in impl:
@@ -757,6 +773,8 @@ def judge(case, impl, resp):
 
 
 def nontrivial(case, impl, resp):
+    if case["op"] == "outlier":
+        return _outl.nontrivial(case, impl, resp)
     if isinstance(impl, dict) and "__error__" in impl:
         return False
     if case["op"] == "transfer":
@@ -767,6 +785,9 @@ def nontrivial(case, impl, resp):
 
 
 def shrink(case):
+    if case["op"] == "outlier":
+        yield from _outl.shrink(case)
+        return
     if case["op"] == "transfer":
         # only segments are removed: every remaining one still spans the bins it was cut from
         sg = case["in"]["segs"]
